@@ -6,6 +6,7 @@ import (
 	"go/token"
 	"go/types"
 	"regexp"
+	"strings"
 
 	"golang.org/x/tools/go/ssa"
 )
@@ -149,6 +150,49 @@ func init() {
 			}
 			c.storeReachUnder(p, "C04.sample", "a candidate equal to q is rejected", f, cand(8380417), "store of a coefficient", isCoeff, false)
 			c.storeReachUnder(p, "C04.sample", "a candidate equal to q-1 is kept", f, cand(8380416), "store of a coefficient", isCoeff, true)
+			// the norm test works on normalised coefficients (its two back-ends disagree on values in (q, 2q)): every
+			// Exceeds in the signing loop is preceded by a normalisation of the same vector
+			if st := p.Func(pk+"/internal", "", "SignTo"); st == nil {
+				c.undecided("C04.sample", pk+"/internal.SignTo", "anchor does not resolve", "")
+			} else {
+				var exc, norm []ssa.CallInstruction
+				for _, b := range st.Blocks {
+					for _, in := range b.Instrs {
+						ci, ok := in.(ssa.CallInstruction)
+						if !ok || ci.Common().IsInvoke() || len(ci.Common().Args) == 0 {
+							continue
+						}
+						n := p.staticCalleeName(ci.Common())
+						switch {
+						case strings.HasSuffix(n, ").Exceeds"):
+							exc = append(exc, ci)
+						case strings.HasSuffix(n, ").Normalize") || strings.HasSuffix(n, ").NormalizeAssumingLe2Q"):
+							norm = append(norm, ci)
+						}
+					}
+				}
+				var bad []string
+				for _, e := range exc {
+					ok := false
+					for _, n := range norm {
+						if sameLocation(e.Common().Args[0], n.Common().Args[0], 0) && instrDominates(n, e) {
+							ok = true
+						}
+					}
+					if !ok {
+						bad = append(bad, fmt.Sprintf("%s: Exceeds on %s is not preceded by a normalisation of it", p.pos(e.Pos()), descVal(e.Common().Args[0])))
+					}
+				}
+				construct := fname(st) + ": every norm test in the signing loop is made on a normalised vector"
+				switch {
+				case len(exc) < 3:
+					c.undecided("C04.sample", construct, fmt.Sprintf("only %d Exceeds calls found (floor 3)", len(exc)), p.fnPos(st))
+				case len(bad) > 0:
+					c.bad("C04.sample", construct, strings.Join(bad, "; "), p.fnPos(st))
+				default:
+					c.ok("C04.sample", construct, fmt.Sprintf("%d norm tests, each dominated by Normalize / NormalizeAssumingLe2Q of the same vector", len(exc)), p.fnPos(st))
+				}
+			}
 			// MakeHint (FIPS 204 Alg. 39) at its boundaries: no hint for |z0| <= γ2 and for z0 = -γ2 with r1 = 0,
 			// a hint for z0 = γ2+1, for z0 = -γ2 with r1 != 0 and for z0 = -γ2-1 (z0 given mod q)
 			{
